@@ -718,11 +718,12 @@ class C20Monitor(Monitor):
         def call(name, fn):
             try:
                 a = fn()
+                a_snap = snap(a)  # the answer as it was when given (the accessor may hand out an object it keeps mutating)
                 b = fn()
             except Exception as e:
                 x.note(f"accessor {name} raised {type(e).__name__}")
                 return None
-            if not same(a, b):
+            if not same(a_snap, b) or not same(a_snap, a):
                 x.violate(f"C20/not-idempotent:{name}", f"{name} gives different answers when called twice")
             return a
 
@@ -831,6 +832,18 @@ def same_formatted(txt, val):
         return txt == f"{val:.4e}" or float(txt) == float(f"{val:.4e}")
     except Exception:
         return False
+
+
+def snap(a):
+    if isinstance(a, list):
+        return list(a)
+    if isinstance(a, tuple):
+        return tuple(a)
+    if isinstance(a, dict):
+        return dict(a)
+    if isinstance(a, np.ndarray):
+        return a.copy()
+    return a
 
 
 def same(a, b):
